@@ -26,7 +26,7 @@ Definition prop_sync (c : sync_case) : bool :=
   (last_head 0 tr =? head) &&
   forallb (delivered_valid_b f1 sched) ids &&                     (* only blocks it was given *)
   (head <=? g) &&                                                 (* never beyond the longest gap-free prefix *)
-  sigs_ok_b f1 sched 1 sigs &&                                    (* never an unsigned block *)
+  sigs_ok_b f1 sched 1 sigs &&                                    (* the STORED signature of every held block verifies under the publisher key *)
   trace_ok_b reqn 0 tr && trace_ok_b reqn head tr2 &&             (* announces and requests above its head on progress *)
   eqb_list Z.eqb ids2 (seqs_from 1 (Z.to_nat g)).                 (* after re-delivery: exactly the longest gap-free prefix *)
 Definition pf_sync := Eval vm_compute in failing prop_sync cases_sync.
